@@ -21,6 +21,7 @@ def retriedDelta (k : Kind) (h : Nat) : Option Delta := do
 def parseOutcome : String → Option (Outcome × String)
   | "refused" => some (.refused, "refused")
   | "silent" => some (.never, "err") | "gto" => some (.never, "err") | "cancel" => some (.never, "ok")
+  | "precancel" => some (.never, "ok")
   | "rejected" => some (.rejected, "err")
   | "failed" => some (.ran, "err") | "ok" => some (.ran, "ok")
   | "noshare" => some (.ctorerr, "ctorerr")
@@ -63,6 +64,39 @@ def handle (op : String) (args : List String) (impl : String) : Option Verdict :
         | none => false)
       | _ => false
     return ⟨m, ok, s!"ctor:{kind}:{variant}"⟩
+  | "cell", [kind, "busy"] => some <| Id.run do
+    -- the lock is held by somebody else when the process wants it, the session is cancelled while it waits.
+    -- ECDSA keygen waits in Run (then leaves at once: unsatisfiable threshold); the others wait in the constructor and
+    -- are executed with the cancelled context afterwards.
+    let some k := parseKind kind | return bad
+    let (o, ret) := if k == Kind.ekeygen then (Outcome.rejected, "err") else (Outcome.never, "ok")
+    let some d := (busyFrom (table k) o).head? | return bad
+    let m := ret ++ ";" ++ showDelta d
+    let ok := match impl.splitOn ";" with
+      | [r, ds] => r != "hang" && (match parseDelta ds with
+        | some id => decide (Balanced id)
+        | none => false)
+      | _ => false
+    return ⟨m, ok, s!"cell:{kind}:busy"⟩
+  | "handler", [which, oc] => some <| Id.run do
+    let some k := (match which with
+      | "keygen" => some Kind.ekeygen | "fkeygen" => some .fkeygen | "refresh" => some .eresharing | _ => none) | return bad
+    -- no event / fetch error: nothing is constructed; a failed Execute is logged, HandleEvents still returns nil
+    let some (d, ret) := (match oc with
+      | "noevents" => some (Delta.start 0, "ok")
+      | "fetcherr" => some (Delta.start 0, "err")
+      | "silent" | "gto" => (handlerFrom false (table k) .never 0).head?.map (·, "ok")
+      | "refused" => (handlerFrom false (table k) .refused 0).head?.map (·, "ok")
+      | _ => none) | return bad
+    -- the ECDSA keygen handler first looks whether a share already exists - without the lock (not a signing read; noted)
+    let d := if which == "keygen" then { d with accU := d.accU + 1 } else d
+    let m := ret ++ ";" ++ showDelta d
+    let ok := match impl.splitOn ";" with
+      | [r, ds] => r != "hang" && (match parseDelta ds with
+        | some id => id.held == 0 && id.fatal == 0 && id.locks == id.unlocks && id.accU ≤ (if which == "keygen" then 1 else 0)
+        | none => false)
+      | _ => false
+    return ⟨m, ok, s!"handler:{which}:{oc}"⟩
   | "cell", [kind, "retried"] => some <| Id.run do
     let some k := parseKind kind | return bad
     if k.exclusive then return bad
@@ -94,19 +128,24 @@ def handle (op : String) (args : List String) (impl : String) : Option Verdict :
     let some steps := (items its ",").mapM (fun it => match it.splitOn ":" with
       | [k, "retried"] => do
         let k' ← parseKind k
-        if k'.exclusive then none else pure (k, k', Outcome.ran, "ok", true)
+        if k'.exclusive then none else pure (k, k', Outcome.ran, "ok", (1 : Nat))
+      | [k, "busy"] => do
+        let k' ← parseKind k
+        pure (k, k', if k' == Kind.ekeygen then Outcome.rejected else Outcome.never, if k' == Kind.ekeygen then "err" else "ok", (2 : Nat))
       | [k, o] => do
         let k' ← parseKind k
         let (o', ret) ← parseOutcome o
-        pure (k, k', o', if o == "silent" && !k'.exclusive then "ok" else ret, false)
+        pure (k, k', o', if o == "silent" && !k'.exclusive then "ok" else ret, (0 : Nat))
       | _ => none) | return bad
     let mut ec := Delta.start 0
     let mut fr := Delta.start 0
     let mut outs : List String := []
-    for (name, k, o, ret, retried) in steps do
+    for (name, k, o, ret, mode) in steps do
       let onE := name.startsWith "e"
       let cur := if onE then ec else fr
-      let some d := (if retried then retriedDelta k cur.held else (sessionFrom true (table k) o cur.held).head?) | return bad
+      let some d := (if mode == 1 then retriedDelta k cur.held
+        else if mode == 2 then (sessionFrom true (table k) o cur.held).head?.map holder.add
+        else (sessionFrom true (table k) o cur.held).head?) | return bad
       let tot := cur.add d
       if onE then ec := tot else fr := tot
       outs := outs ++ [ret ++ ";" ++ showDelta tot]
@@ -115,7 +154,7 @@ def handle (op : String) (args : List String) (impl : String) : Option Verdict :
     let ok := parts.length = steps.length && (steps.zip parts).all fun ((_, k, o, _, _), p) =>
       match p.splitOn ";" with
       | [r, ds] => r != "hang" && (match parseDelta ds with
-        | some id => decide (Balanced id) && (o != .ran || decide (RunsUnderLock k id))
+        | some id => decide (Balanced id) && (o != Outcome.ran || decide (RunsUnderLock k id))
         | none => false)
       | _ => false
     return ⟨m, ok, s!"seq:n={min steps.length 4}"⟩
